@@ -337,17 +337,34 @@ func multiSplit(value string, seps ...string) []string {
 	return curArray
 }
 
+// recursiveCheck reports whether value can be split into consecutive groups
+// of tokens each of which (joined by a space) is accepted by one of funcs.
+//
+// reachable[i] records that value[:i] can be split that way, so every
+// (start, end) pair is handed to the handlers at most once instead of once
+// per way of reaching start.
 func recursiveCheck(value []string, funcs []func(string) bool) bool {
 	verifCount()
+	reachable := make([]bool, len(value)+1)
+	reachable[0] = true
 	for i := 0; i < len(value); i++ {
-		tempVal := strings.Join(value[:i+1], " ")
-		for _, j := range funcs {
-			if j(tempVal) && (len(value[i+1:]) == 0 || recursiveCheck(value[i+1:], funcs)) {
-				return true
+		if !reachable[i] {
+			continue
+		}
+		for k := i + 1; k <= len(value); k++ {
+			if reachable[k] {
+				continue
+			}
+			tempVal := strings.Join(value[i:k], " ")
+			for _, j := range funcs {
+				if j(tempVal) {
+					reachable[k] = true
+					break
+				}
 			}
 		}
 	}
-	return false
+	return len(value) > 0 && reachable[len(value)]
 }
 
 func in(value []string, arr []string) bool {
